@@ -470,12 +470,19 @@ fn slice(array: &[Rcvar], start: Option<i32>, stop: Option<i32>, step: i32) -> V
     if step > 0 {
         while i < b {
             result.push(array[i as usize].clone());
-            i += step;
+            // A step near i32::MAX may leave the i32 range: nothing is left to select.
+            i = match i.checked_add(step) {
+                Some(next) => next,
+                None => break,
+            };
         }
     } else {
         while i > b {
             result.push(array[i as usize].clone());
-            i += step;
+            i = match i.checked_add(step) {
+                Some(next) => next,
+                None => break,
+            };
         }
     }
     result
